@@ -1345,6 +1345,18 @@ class Real(base.SimpleAsn1Type):
     @staticmethod
     def __normalizeBase10(value):
         m, b, e = value
+
+        if m != m:
+            # not-a-number has no ASN.1 REAL representation
+            raise error.PyAsn1Error('Bad real value syntax: %s' % (value,))
+
+        # a fractional mantissa: move the decimal point (as for a float)
+        while int(m) != m:
+            m *= 10
+            e -= 1
+
+        m = int(m)
+
         while m and m % 10 == 0:
             m //= 10
             e += 1
